@@ -5,7 +5,7 @@ d = f'/verif/seeded/{name}'
 am = json.load(open(f'{d}/agent_meta.json'))
 tr = open(f'{d}/tests_run.txt').read().strip().split('\n')
 pid = name.split('-')[0]
-meta = {'property': pid, 'round': (3 if '-r3-' in name else 2 if '-r2-' in name else 1), 'summary': am.get('summary', ''), 'needs': am.get('needs', ''),
+meta = {'property': pid, 'round': (int(name.split('-r')[1].split('-')[0]) if '-r' in name else 1), 'summary': am.get('summary', ''), 'needs': am.get('needs', ''),
         'confirmed': {'how': 'tools/confirm_seed.sh in a scratch worktree: patch applies; demo exits 1 with the patch and 0 without; listed existing tests pass with the patch',
                       'tests_run': tr},
         'what_we_ran': f'tools/try_patch.sh seeded/{name}/patch.diff {pid} quick',
